@@ -2,6 +2,8 @@
 
   {'cin': 3, 'size': 6, 'stages': [...], 'head': 'flatlin'|'gaplin'|'linlin', 'out': 3}
 
+optional 'flat': how the flatten in front of the head's first Linear is SPELLED (absent: torch.flatten(x, 1)); see FLAT_SPELLINGS
+
 stages:
   {'op':'conv','cout','k','bias','bn','dw','s','act','pm'} conv [-> bn] [-> relu]; 'pm' = padding_mode
   {'op':'residual','cout'}                                 relu(convA(T) + convB(T))
@@ -247,6 +249,37 @@ class Net2d(nn.Module):
             self.head['obn'] = BN(out)
         else:
             raise ValueError(h)
+        # optional spelling of the flatten in front of the first Linear (module forms own a sub-module, registered last)
+        if prog.get('flat') == 'module':
+            self.head['flatten'] = nn.Flatten()
+        elif prog.get('flat') == 'moduleend':
+            self.head['flatten'] = nn.Flatten(1, dim + 1)
+
+    def _flat(self, x):
+        """the flatten in front of the head's first Linear; every spelling computes the same tensor"""
+        fl = self.prog.get('flat')
+        if fl is None:
+            return torch.flatten(x, 1)
+        d = self.dim
+        if fl in ('module', 'moduleend'):      # nn.Flatten() / nn.Flatten(1, d + 1)
+            return self.head['flatten'](x)
+        if fl == 'torchend':                   # explicit non-negative (inclusive) end_dim, positional
+            return torch.flatten(x, 1, d + 1)
+        if fl == 'kwend':                      # ... as keywords
+            return torch.flatten(x, start_dim=1, end_dim=d + 1)
+        if fl == 'methodend':                  # ... as a tensor method
+            return x.flatten(1, d + 1)
+        if fl == 'methodkwend':
+            return x.flatten(start_dim=1, end_dim=d + 1)
+        if fl == 'method':
+            return x.flatten(1)
+        if fl == 'torchneg1':                  # explicit end_dim = -1
+            return torch.flatten(x, 1, -1)
+        if fl == 'negstart':                   # the channel axis spelled with a negative index (-2 in 1D, -3 in 2D)
+            return torch.flatten(x, -(d + 1))
+        if fl == 'negstartend':                # negative start, explicit non-negative end
+            return x.flatten(-(d + 1), d + 1)
+        raise ValueError(fl)
 
     def _features(self, x):
         for i, st in enumerate(self.prog['stages']):
@@ -289,9 +322,9 @@ class Net2d(nn.Module):
     def _head(self, x):
         h = self.prog.get('head', 'flatlin')
         if h == 'flatlin':
-            return self.head['fc'](torch.flatten(x, 1))
+            return self.head['fc'](self._flat(x))
         if h == 'gaplin':
-            return self.head['fc'](torch.flatten(self.head['gap'](x), 1))
+            return self.head['fc'](self._flat(self.head['gap'](x)))
         if h == 'fcn':
             return self.head['out'](x)
         if h == 'fcnskip':
@@ -299,7 +332,7 @@ class Net2d(nn.Module):
             return self.head['ob'](torch.relu(y)) + y
         if h == 'dwout':
             return self.head['obn'](self.head['od'](self.head['oa'](x)))
-        x = self.head['fc1'](torch.flatten(x, 1))
+        x = self.head['fc1'](self._flat(x))
         if 'bn' in self.head:
             x = self.head['bn'](x)
         return self.head['fc'](self.head['relu'](x))
@@ -308,6 +341,10 @@ class Net2d(nn.Module):
 class Net2dTwoIn(Net2d):
     def forward(self, x, y):
         return self._head(self._features(self._join(x, y)))
+
+
+# spellings of the head's flatten accepted in prog['flat'] (all equivalent on a (B, C, *spatial) tensor)
+FLAT_SPELLINGS = ['module', 'moduleend', 'torchend', 'kwend', 'methodend', 'methodkwend', 'method', 'torchneg1', 'negstart', 'negstartend']
 
 
 def build(prog, seed, positive_input=True):
